@@ -96,12 +96,29 @@ func (r *Run) CountN(name string, n int64) {
 func (r *Run) Failf(class, locus, format string, args ...any) {
 	v := &Violation{Property: r.Prop, Class: class, Locus: locus, Msg: fmt.Sprintf(format, args...)}
 	r.mu.Lock()
+	for _, old := range r.Viols {
+		if old.Key() == v.Key() && len(r.Viols) > 8 {
+			r.mu.Unlock()
+			return // the same clause keeps failing in this run: one report is enough
+		}
+	}
 	r.Viols = append(r.Viols, v)
 	r.mu.Unlock()
 	r.Logf("!! VIOLATION %s: %s", v.Key(), v.Msg)
 }
 
-func (r *Run) Failed() bool { return len(r.Viols) > 0 }
+// Failed reports whether the run has a violation that is not a recorded known finding (a run that only hit known
+// findings keeps exploring).
+func (r *Run) Failed() bool {
+	for _, v := range r.Viols {
+		if _, ok := globalKnown.Match(v.Key()); !ok {
+			return true
+		}
+	}
+	return false
+}
+
+var globalKnown *Known
 
 // State records an abstract state signature and the transition from the previous one via event kind ev.
 func (r *Run) State(sig, ev string) {
